@@ -228,7 +228,7 @@ func (c *Collection) Delete(id string, opts ...WriteOption) (proto.Message, erro
 		c.pub.publish(ticket, func() {
 			c.bus.Send(context.TODO(), &CollectionChange{
 				Id:         id,
-				ChangeTime: c.clock.Now(),
+				ChangeTime: args.updateTime(c.clock),
 				ChangeType: types.ChangeType_REMOVE,
 				OldValue:   oldVal.body,
 			})
